@@ -470,6 +470,7 @@ class Executor:
     def list_append(self, st, v, x):
         x = self.coerce(x, v.t.elt, st)
         n = self.list_len(st, v)
+        st.assume(n >= 0)           # lengths of heap lists are non-negative (invariant of the encoding, as in list_extend)
         self.list_store(st, v, n, x)
         self.list_set_len(st, v, n + 1)
 
